@@ -462,6 +462,28 @@ def _cases(ctx, uberjob, rng, ins, MemStore, avs_state, first_scope, Node):
             ctx.fail("rerun:registry", "a second run with the same registry gave a different result", dict(replay0, first=repr(r3), second=repr(r4)))
         attempt("run", "fresh_time", lambda: uberjob.run(plan, output=out, registry=reg, progress=None,
                                                           fresh_time=dt.datetime(2030, 1, 1)), True)
+        # 3b. a registry shared with another plan (it has an entry for a node this plan does not contain): whatever run and
+        # dry_run do with it - on the pinned code they reject it - the caller's registry and plan stay as they were
+        if pi % 3 == 0:
+            other = uberjob.Plan()
+            foreign = other.call(lambda: 1)
+            shared = reg.copy()
+            shared.add(foreign, MemStore("foreign"))
+            for api, kw in (("run", {}), ("dry_run", {"dry_run": True})):
+                before = (snap_plan(plan), snap_reg(shared), snap_plan(other))
+                try:
+                    uberjob.run(plan, output=out, registry=shared, progress=None, **kw)
+                    oc = "returned"
+                except BaseException as e:      # noqa
+                    oc = type(e).__name__
+                after = (snap_plan(plan), snap_reg(shared), snap_plan(other))
+                ctx.case(("\n".join(text), api, "shared-registry"))
+                ctx.count("outcome", "%s:shared-registry:%s" % (api, oc))
+                for nm, b, a in zip(("Plan", "Registry", "other Plan"), before, after):
+                    d = diff(b, a)
+                    if d:
+                        ctx.fail("snapshot:%s:shared-registry" % api, "%s with a registry that also has an entry for another plan's node (%s) changed the caller's %s: %s"
+                                 % (api, oc, nm, d), dict(replay0, api=api, diff=d))
         # 4. transform_physical (adds a node to the physical plan it is given / returns it unchanged)
         def tp(p, o):
             if rng.random() < 0.5:
